@@ -587,8 +587,29 @@ tx_outs:\n{tx_outs}
         """Returns whether the input has a valid signature"""
         # get the relevant input
         tx_in = self.tx_ins[input_index]
+        script_pubkey = tx_in.script_pubkey(self.network)
+        script_sig_commands = tx_in.script_sig.commands
+        if script_pubkey.is_p2wpkh() or script_pubkey.is_p2wsh() or script_pubkey.is_p2tr():
+            # BIP141/BIP341: a native witness program is spent with an empty ScriptSig
+            if len(script_sig_commands) > 0:
+                return False
+        elif script_pubkey.is_p2sh():
+            # BIP16: the ScriptSig is push-only and ends with the serialized RedeemScript
+            if len(script_sig_commands) == 0 or not isinstance(
+                script_sig_commands[-1], bytes
+            ):
+                return False
+            for command in script_sig_commands:
+                if isinstance(command, int) and command > 0x60:
+                    return False
+            redeem_script = RedeemScript.convert(script_sig_commands[-1])
+            # BIP141: for a P2SH-wrapped witness program the ScriptSig is exactly that one push
+            if (
+                redeem_script.is_p2wpkh() or redeem_script.is_p2wsh()
+            ) and len(script_sig_commands) != 1:
+                return False
         # combine the scripts
-        combined_script = tx_in.script_sig + tx_in.script_pubkey(self.network)
+        combined_script = tx_in.script_sig + script_pubkey
         # evaluate the combined script
         return combined_script.evaluate(self, input_index)
 
